@@ -1079,3 +1079,156 @@ pub fn gen_seq_json(e: &Entry, b: &Bounds, sink: &mut dyn Sink) {
         });
     }
 }
+
+// ---------------------------------------------------------------------------------------------
+// LENGTH dimension: long values with a multi-byte character at every byte offset around the
+// sizes code likes to use as caps
+
+/// Sizes (in bytes) that tend to be used as caps; every length in cap-2 ..= cap+2 is enumerated.
+pub const LENGTH_CAPS: &[usize] = &[16, 32, 64, 128, 256, 1024];
+/// Appended after the filler: nothing, a 2-, 3- and 4-byte character.
+pub const LENGTH_MULTIBYTE: &[&str] = &["", "é", "€", "𝄞"];
+pub const LENGTH_TAILS: &[&str] = &["zz", ""];
+
+/// All long values: (value, description).
+pub fn long_values() -> Vec<String> {
+    let mut out: Vec<String> = vec![];
+    let mut push = |v: String| {
+        if !v.is_empty() && !out.contains(&v) {
+            out.push(v)
+        }
+    };
+    for cap in LENGTH_CAPS {
+        // ASCII filler of every length in the window
+        for l in cap - 2..=cap + 2 {
+            for mb in LENGTH_MULTIBYTE {
+                for tail in LENGTH_TAILS {
+                    push(format!("{}{}{}", "a".repeat(l), mb, tail));
+                }
+            }
+        }
+        // 3-byte filler: boundaries fall inside characters all along the value
+        for n in (cap - 2) / 3 - 1..=(cap + 2).div_ceil(3) + 1 {
+            for mb in LENGTH_MULTIBYTE {
+                push(format!("{}{}{}", "€".repeat(n), mb, "zz"));
+            }
+            push(format!("a{}", "€".repeat(n)));
+            push(format!("aa{}", "€".repeat(n)));
+        }
+    }
+    out
+}
+
+fn is_parsed_type(ty: Ty) -> bool {
+    match ty {
+        Ty::Str | Ty::BStr | Ty::CowStr => false,
+        Ty::Opt(i) | Ty::Seq(i) => is_parsed_type(*i),
+        _ => true,
+    }
+}
+
+fn length_base(ty: Ty) -> &'static str {
+    if is_parsed_type(ty) { "long-parse-error" } else { "long-roundtrip" }
+}
+
+/// Three encodings of a long value: everything literal that may be, non-ASCII characters
+/// percent-encoded (upper-case hex), everything percent-encoded (lower-case hex).
+fn long_encodings(v: &str, ctx: Ctx) -> Vec<String> {
+    let mut out = vec![encoding_minimal(v, ctx)];
+    let nonascii: String = v
+        .chars()
+        .map(|c| if c.is_ascii() && literal_legal(c, ctx) { c.to_string() } else { pct(c, true) })
+        .collect();
+    let all: String = v.chars().map(|c| pct(c, false)).collect();
+    for w in [nonascii, all] {
+        if !out.contains(&w) {
+            out.push(w);
+        }
+    }
+    out
+}
+
+pub fn gen_length_text(ch: Channel, e: &Entry, sink: &mut dyn Sink) {
+    let (name, ty) = e.fields[0];
+    let base = length_base(ty);
+    let variants: Vec<(&str, Ctx)> = match ch {
+        Channel::Path => vec![
+            ("/s/{x}", Ctx::PathSeg),
+            ("/k/{x}/tail", Ctx::PathSeg),
+            ("/c/{*x}", Ctx::PathCatchAll),
+        ],
+        _ => vec![("", val_ctx(ch))],
+    };
+    let values = long_values();
+    for (template, ctx) in &variants {
+        for v in &values {
+            for wire in long_encodings(v, *ctx) {
+                let occ = Occ::new(name, v, &wire);
+                emit_text(sink, ch, e, base, template, &[occ], false);
+            }
+        }
+        // long values that are invalid UTF-8 after decoding: the documented error echoes the
+        // whole raw segment (path)
+        for cap in LENGTH_CAPS {
+            for l in cap - 2..=cap + 2 {
+                for bad in ["%FF", "%C3", "%E2%82"] {
+                    let raw = format!("{}{}", "a".repeat(l), bad);
+                    let (wire, ct) = match ch {
+                        Channel::Path => (fill(template, &[(name, &raw)]).into_bytes(), None),
+                        Channel::Query => (format!("/q?{name}={raw}").into_bytes(), None),
+                        _ => (format!("{name}={raw}").into_bytes(), Some(FORM_CT.to_vec())),
+                    };
+                    let mut expect = invalid_utf8_expect(ch, name, &raw);
+                    expect.class = "long-invalid-utf8".into();
+                    sink.check(Case {
+                        channel: ch,
+                        shape: e.name,
+                        wire,
+                        content_type: ct,
+                        logical: format!("{name}=<{l} x 'a' then bytes {bad}>"),
+                        base: "long-invalid-utf8",
+                        expect,
+                    });
+                }
+            }
+        }
+    }
+}
+
+pub fn gen_length_json(e: &Entry, sink: &mut dyn Sink) {
+    let (name, ty) = e.fields[0];
+    let base = length_base(ty);
+    for v in long_values() {
+        // literal, and every non-ASCII character written as \u escapes
+        let lit = json_string_minimal(&v);
+        let mut esc = String::from("\"");
+        let mut escaped = false;
+        for c in v.chars() {
+            if c.is_ascii() {
+                esc.push(c);
+            } else {
+                escaped = true;
+                let mut units = [0u16; 2];
+                for u in c.encode_utf16(&mut units).iter() {
+                    esc.push_str(&format!("\\u{u:04x}"));
+                }
+            }
+        }
+        esc.push('"');
+        let mut toks = vec![(lit, false)];
+        if escaped {
+            toks.push((esc, true));
+        }
+        for (tok, was_escaped) in toks {
+            let doc = format!("{{\"{name}\":{tok}}}");
+            emit_json(
+                sink,
+                e,
+                base,
+                doc,
+                &[(name, JTok::Str(v.clone(), was_escaped))],
+                format!("{name}=<{} bytes: {:?}...>", v.len(), v.chars().rev().take(4).collect::<Vec<_>>()),
+            );
+        }
+    }
+}
